@@ -365,6 +365,23 @@ def eval_c16(batches, tier, seed, known, info):
                                           'moved': sorted(which), 'decoy_in_yaml': decoy, 'exit': v['plugin'].get('exit'), 'stderr': v['plugin'].get('stderr', '')[-300:]})
             if 'funcs' not in m:
                 out['tie_breaks'].append({'variant': v['dir'], 'diff': 'model rejects the configuration: ' + json.dumps(m)[:200]})
+        # a configuration that uses the dual options only, delivered (a) by the YAML file, (b) entirely by the command line next to a
+        # `config` file that holds no YAML document at all (empty / comments only / blank lines): same result
+        dual_only = copy.deepcopy(b['case'])
+        dual_only['yaml'] = {k: v for k, v in dual_only['yaml'].items() if k in allk}
+        dbase = run_variant(info, 'c16dualbase', dual_only)
+        for st in ('blank:empty', 'blank:comments', 'blank:lines'):
+            c = move_to_cli(dual_only, set(allk), rnd, False)
+            c['yamlState'] = st
+            v = run_variant(info, 'c16' + st.replace(':', ''), c)
+            out['evaluations'] += 1
+            if (v['plugin'].get('contentSha'), v['plugin'].get('exit')) != (dbase['plugin'].get('contentSha'), dbase['plugin'].get('exit')):
+                out['violations'].append({'kind': 'same logical configuration, different channel, different file', 'batch': b['dir'], 'variant': v['dir'],
+                                          'yaml_file': st, 'exit': v['plugin'].get('exit'), 'base_exit': dbase['plugin'].get('exit'),
+                                          'stderr': v['plugin'].get('stderr', '')[-300:]})
+            mb, mv = (dbase['model'] or [{}])[0], (v['model'] or [{}])[0]
+            if ('funcs' in mb) != ('funcs' in mv) or mb.get('funcs') != mv.get('funcs'):
+                out['tie_breaks'].append({'variant': v['dir'], 'diff': 'model: blank configuration file differs from the YAML delivery: ' + json.dumps(mv)[:200]})
         # error half
         for name, mut in (('notypes', lambda c: (c['yaml'].__setitem__('types', None), c.__setitem__('cli', [kv for kv in c['cli'] if kv['k'] != 'types']))),
                           ('missing', lambda c: c.__setitem__('yamlState', 'missing')),
@@ -645,6 +662,40 @@ def permuted(case, rnd):
     return c
 
 
+def canon_nf(x):
+    """Go values in the normal form of C04: nil and empty slices / maps / byte strings are identified (dropped like zero values)"""
+    if isinstance(x, dict):
+        if set(x) == {'L'} and not x['L']:
+            return None
+        if set(x) == {'M'} and not x['M']:
+            return None
+        if set(x) == {'y'} and not x['y']:
+            return None
+        out = {}
+        for k, v in x.items():
+            c = canon_nf(v)
+            if c is None and k not in ('P', 'panic', 'v'):
+                continue
+            out[k] = c
+        return out
+    if isinstance(x, list):
+        return [canon_nf(v) for v in x]
+    return x
+
+
+def canon_order(r):
+    """diagnostics and hook calls come in block order: for descriptors that differ in declaration order compare them as multisets;
+    Go values are compared in the normal form of C04"""
+    if isinstance(r, dict):
+        r = canon_nf(r)
+        for k in ('hooks', 'diags'):
+            if isinstance(r.get(k), list):
+                r[k] = sorted(r[k], key=lambda h: json.dumps(h, sort_keys=True))
+        if isinstance(r.get('steps'), list):
+            r['steps'] = [canon_order(x) for x in r['steps']]
+    return r
+
+
 def eval_c15(batches, tier, seed, known, info):
     out = {'evaluations': 0, 'violations': [], 'tie_breaks': [], 'distinct': [], 'samples': [], 'coverage': {}, 'known': {}}
     rnd = random.Random(seed + 15)
@@ -681,7 +732,42 @@ def eval_c15(batches, tier, seed, known, info):
                     out['tie_breaks'].append({'variant': v['dir'], 'diff': 'model function order differs'})
         if len(out['samples']) < 2:
             out['samples'].append({'batch': b['dir']})
-    out['coverage'] = {'traces_validated_against_impl': out['evaluations'] - len(out['violations'])}
+    # behaviour: the converters generated for a permuted descriptor (sort off) answer the SAME operations in the same way
+    # (full pipeline twin of the first executed batches: plugin + gogo + compiler + driver on the base batch's ops.jsonl)
+    compared = 0
+    for b in [x for x in batches if x['status'].get('stage') == 'done' and x['case'].get('yamlState') == 'ok'][: (1 if tier == 'quick' else 4)]:
+        c = copy.deepcopy(b['case'])
+        c['yaml']['sort'] = False
+        c['cli'] = [kv for kv in c['cli'] if kv['k'] != 'sort']
+        if b['case']['yaml'].get('sort') or any(kv['k'] == 'sort' for kv in b['case']['cli']):
+            continue        # the base batch must itself be a sort-off batch (its ops and answers are the reference)
+        c = permuted(c, rnd)
+        twin_dir = b['dir'] + '_c15twin'
+        if not os.path.exists(f'{twin_dir}/done'):
+            json.dump({'case': c, 'meta': b['meta']}, open(f"{b['dir']}/c15twin_case.json", 'w'))
+            pc.sh([pc.BIN, 'batch', '-seed', str(b['status'].get('seed', seed)), '-index', str(b['status'].get('index', 0)), '-work', twin_dir,
+                   '-plugin', pc.plugin_path(info['repoHash']), '-scale', '1', '-case', f"{b['dir']}/c15twin_case.json",
+                   '-ops', f"{b['dir']}/ops.jsonl"], cwd=pc.HARNESS, timeout=1800)
+            import shutil
+            for sub in ('spkg', 'tgt'):
+                shutil.rmtree(f'{twin_dir}/{sub}', ignore_errors=True)
+            open(f'{twin_dir}/done', 'w').write('1')
+        out['evaluations'] += 1
+        try:
+            timpl = [json.loads(l) for l in open(f'{twin_dir}/impl.jsonl') if l.strip()]
+        except OSError:
+            st = open(f'{twin_dir}/status.json').read()[:400] if os.path.exists(f'{twin_dir}/status.json') else 'no status'
+            out['violations'].append({'kind': 'the permuted descriptor (sort off) does not generate / compile / run', 'batch': b['dir'], 'twin': twin_dir, 'status': st})
+            continue
+        for op, a, t in zip(b['ops'], b['impl'], timpl):
+            if op.get('op') == 'schema':
+                continue            # attribute order of the schema walk is not behaviour
+            compared += 1
+            if json.dumps(canon_order(a), sort_keys=True) != json.dumps(canon_order(t), sort_keys=True):
+                out['violations'].append({'kind': 'with sort disabled the behaviour of the converters depends on the declaration order', 'batch': b['dir'],
+                                          'twin': twin_dir, 'id': op.get('id'), 'tag': op.get('tag'), 'diff': first_diff(a, t)})
+                break
+    out['coverage'] = {'traces_validated_against_impl': out['evaluations'] - len(out['violations']), 'operations_compared_with_permuted_twin': compared}
     return out
 
 
